@@ -34,6 +34,8 @@ func typeString(code string) string {
 		return "universe.IA"
 	case "IAB":
 		return "universe.IAB"
+	case "Pad2":
+		return "universe.Pad2"
 	}
 	return code
 }
@@ -342,6 +344,25 @@ func c18Signatures(tier string) []*u.Func {
 		mk(nil, rl, i%2 == 0, i%3 == 0)
 		mk(u.F("x", "A,{B@n?}", "").Params, rl, i%2 == 1, i%3 == 1)
 	}
+	// the embedded dig.In / dig.Out in other positions of the struct: last,
+	// after the first field, after an embedded plain struct that itself embeds
+	// two structs (every object of the list gets the same style)
+	for i, pl := range plists {
+		if !hasParamObject(pl) || (q && i%3 != 0) {
+			continue
+		}
+		for _, style := range []int{1, 2, 3} {
+			mk(withParamEmbed(pl, style), resA, i%2 == 0, i%3 == 0)
+		}
+	}
+	for i, rl := range rlists {
+		if !hasResultObject(rl.results) || (q && i%3 != 0) {
+			continue
+		}
+		for _, style := range []int{1, 3} {
+			mk(u.F("x", "A", "").Params, c18Res{results: withResultEmbed(rl.results, style), opts: rl.opts}, false, i%2 == 0)
+		}
+	}
 	// a cross product of small lists
 	for i, pl := range plists {
 		if i%37 != 0 {
@@ -351,6 +372,48 @@ func c18Signatures(tier string) []*u.Func {
 			if j%11 == 0 {
 				mk(pl, rl, (i+j)%2 == 0, (i+j)%3 == 0)
 			}
+		}
+	}
+	return out
+}
+
+func hasParamObject(ps []u.Param) bool {
+	for _, p := range ps {
+		if p.Kind == u.PObject {
+			return true
+		}
+	}
+	return false
+}
+
+func withParamEmbed(ps []u.Param, style int) []u.Param {
+	out := make([]u.Param, len(ps))
+	for i, p := range ps {
+		out[i] = p
+		if p.Kind == u.PObject {
+			out[i].Embed = style
+			out[i].Fields = withParamEmbed(p.Fields, style)
+		}
+	}
+	return out
+}
+
+func hasResultObject(rs []u.Result) bool {
+	for _, r := range rs {
+		if r.Kind == u.RObject {
+			return true
+		}
+	}
+	return false
+}
+
+func withResultEmbed(rs []u.Result, style int) []u.Result {
+	out := make([]u.Result, len(rs))
+	for i, r := range rs {
+		out[i] = r
+		if r.Kind == u.RObject {
+			out[i].Embed = style
+			out[i].Fields = withResultEmbed(r.Fields, style)
 		}
 	}
 	return out
